@@ -39,6 +39,10 @@ type c12Scenario struct {
 	// ExpectClosed: a close-type operation runs on the scenario DB and nothing re-opens it,
 	// so at quiescence it must be closed with every handle released.
 	ExpectClosed bool
+	// Suffix: c12 op codes run sequentially after the concurrent phase (and after the closing SyncAndWait), before
+	// the oracles: "the daemon goes on with its periodic duties" - damage done to cached state by the concurrent
+	// phase shows in the files the NEXT pass writes.
+	Suffix []string
 	// Env: exploration settings this scenario needs (e.g. C12_PIPE=prefer C12_FS=all); given to its worker
 	// process and re-applied on replay.
 	Env []string
@@ -71,7 +75,7 @@ var c12Pairs = func() []*c12Scenario {
 	short := map[string]string{"SYNC": "sync", "CKP": "ckpassive", "CKT": "cktruncate", "FSNAP": "snapshot", "CMP1": "compact1", "RETL0": "retl0",
 		"CLOSE": "close", "RSET": "reset", "W": "appwrite", "RSYNC": "rsync", "SW": "syncwait", "REG": "register", "UNREG": "unregister",
 		"ENABLE": "enable", "DISABLE": "disable", "SNAP": "storesnapshot", "RET9": "ret9", "STATUS": "status", "DIAG": "diag", "SCLOSE": "storeclose",
-		"SYNCDB": "storesync", "TXC": "apptx", "TXR": "apptxrollback", "CLOSEX": "closecancelled", "LIST": "storelist"}
+		"SYNCDB": "storesync", "CMP2": "compact2", "TXC": "apptx", "TXR": "apptxrollback", "CLOSEX": "closecancelled", "LIST": "storelist"}
 	prio := map[string]int{}
 	for i, o := range []string{"CLOSE", "CLOSEX", "SCLOSE", "DISABLE", "UNREG", "REG", "ENABLE", "FSNAP", "SNAP", "CKT", "CKP", "SYNC", "SW", "RSYNC", "SYNCDB", "CMP1", "RETL0", "RET9", "RSET", "STATUS", "DIAG", "LIST", "TXC", "TXR", "W"} {
 		prio[o] = i
@@ -121,6 +125,11 @@ var c12Pairs = func() []*c12Scenario {
 		sc.Setup = []string{"REG2"}
 		out = append(out, sc)
 	}
+	// two levels' compaction passes at once right after the object was re-opened (level-maximum cache cold), then the
+	// next level-1 pass: every level must still be one gapless, non-overlapping sequence (C06's layout clause under
+	// concurrency; the Store's level monitors all fire at start-up)
+	out = append(out, &c12Scenario{Name: "compact1-vs-compact2-cold-cache", Prefix: strings.Fields("W3 SW W1 SW CMP:1 W1 SW W1 S W1"),
+		Setup: []string{"DISABLE", "ENABLE"}, Threads: [][]string{{"CMP1"}, {"CMP2"}}, Retention: true, Suffix: []string{"W", "SW", "CMP1", "CMP2"}})
 	// application transaction against sync and checkpoints (C02 half)
 	out = append(out, mk("TXC", "SYNC"), mk("TXC", "CKT"), mk("TXR", "SYNC"), mk("TXC", "FSNAP"))
 
@@ -366,6 +375,13 @@ func (w *c12World) Op(ti int, op string) string {
 		return c12Class(err)
 	case "CMP1":
 		lvl, err := s.Levels().Level(1)
+		if err != nil {
+			panic(err)
+		}
+		_, err = s.Store.CompactDB(ctx, s.DB, lvl)
+		return c12Class(err)
+	case "CMP2":
+		lvl, err := s.Levels().Level(2)
 		if err != nil {
 			panic(err)
 		}
